@@ -86,4 +86,9 @@ Proof. revert k. induction m as [|m IH]; intros k H; [reflexivity|]. destruct k;
 Lemma skipn_repeat_le {A} (x : A) m k : (m <= k)%nat -> skipn m (repeat x k) = repeat x (k - m).
 Proof. revert k. induction m as [|m IH]; intros k H; [rewrite Nat.sub_0_r; reflexivity|]. destruct k; [lia|]. cbn. apply IH. lia. Qed.
 
+Lemma In_skipn' {A} (x : A) n l : In x (skipn n l) -> In x l.
+Proof. revert l. induction n as [|n IH]; intros l H; [exact H|]. destruct l; [exact H|]. right. apply IH. exact H. Qed.
+Lemma In_firstn' {A} (x : A) n l : In x (firstn n l) -> In x l.
+Proof. revert l. induction n as [|n IH]; intros l H; [contradiction|]. destruct l; [exact H|]. destruct H as [H|H]; [left; exact H|right; apply IH; exact H]. Qed.
+
 Ltac zlens := rewrite ?zlen_app, ?zlen_cons, ?zlen_nil, ?zlen_map, ?zlen_repeat in *.
